@@ -35,7 +35,7 @@ RULE = ("cases = (dataset, 1-2 rule variables, RDR tree of <= 7 nodes with per-n
         "condition pool on fixed datasets; the multiset of (tag class, fields) is compared with the RDR interpreter. "
         "Non-trivial = >= 2 different tags occur in the expected output and one of them comes from a refinement or an "
         "alternative; distinct = canonical JSON.")
-BUDGET = {"quick": (4, 300), "thorough": (16, 3000)}
+BUDGET = {"quick": (8, 700), "thorough": (16, 5000)}
 EXHAUSTIVE_NOTE = {"quick": "all RDR tree shapes with <= 3 nodes x condition assignments from a pool of 4 x 2 datasets",
                    "thorough": "all RDR tree shapes with <= 4 nodes x condition assignments from a pool of 4 x 3 datasets"}
 ASSUMPTIONS = ["a rule has at most one refinement block directly beneath it (further exceptions are alternatives of that "
@@ -50,7 +50,13 @@ def _cfg():
                allow_nested_not="not_under_not" not in avoid)
 
 
-def _branch_cond(draw, ctx, nv):
+def _branch_cond(draw, ctx, nv, extra=None):
+    if extra is not None:
+        # joins a variable that only this branch (and the branches beneath it) uses
+        c = leaf(draw, ctx, [draw(st.integers(0, nv - 1)), extra])
+        if chance(draw, 1, 4):
+            c = ["and", "nary", [c, leaf(draw, ctx, [draw(st.integers(0, nv - 1))])]]
+        return c
     vs = [draw(st.integers(0, nv - 1))] if (nv == 1 or chance(draw, 1, 2)) else [0, 1]
     c = leaf(draw, ctx, vs)
     if chance(draw, 1, 5):
@@ -60,15 +66,19 @@ def _branch_cond(draw, ctx, nv):
     return c
 
 
-def _tree(draw, ctx, nv, depth, budget):
+def _tree(draw, ctx, nv, depth, budget, extra=None):
     """budget: mutable [remaining nodes]."""
-    node = {"cond": _branch_cond(draw, ctx, nv), "ref": None, "alt": None}
+    use_extra = extra is not None and chance(draw, 1, 2)
+    node = {"cond": _branch_cond(draw, ctx, nv, extra if use_extra else None), "ref": None, "alt": None,
+            "extra": use_extra}
     budget[0] -= 1
     if depth > 0:
         if budget[0] > 0 and chance(draw, 1, 2):
-            node["ref"] = _tree(draw, ctx, nv, depth - 1, budget)
-        if budget[0] > 0 and chance(draw, 1, 2):
-            node["alt"] = _tree(draw, ctx, nv, depth - 1, budget)
+            node["ref"] = _tree(draw, ctx, nv, depth - 1, budget, extra)
+        # a branch that joins the extra variable gets no alternative of its own: whether such an alternative applies
+        # per base assignment or per value of the joined variable is not stated, so that shape is not generated
+        if budget[0] > 0 and not use_extra and chance(draw, 1, 2):
+            node["alt"] = _tree(draw, ctx, nv, depth - 1, budget, extra)
     return node
 
 
@@ -78,9 +88,11 @@ def _case(draw, tier):
     nv = draw(st.sampled_from([1, 2, 2]))
     recs = draw_dataset(draw, cfg)
     n = len(recs)
-    ctx = Ctx(cfg, recs, nv)
-    doms = [list(draw(st.permutations(list(range(n))))[:draw(st.integers(1, min(3, n)))]) for _ in range(nv)]
-    vars_ = [{"dom": v, "decl": "let", "type": "Ent"} for v in range(nv)]
+    extra = nv if chance(draw, 1, 3) else None          # index of a variable only some branches join
+    ctx = Ctx(cfg, recs, nv + (1 if extra is not None else 0))
+    doms = [list(draw(st.permutations(list(range(n))))[:draw(st.integers(1, min(3, n)))])
+            for _ in range(nv + (1 if extra is not None else 0))]
+    vars_ = [{"dom": v, "decl": "let", "type": "Ent"} for v in range(len(doms))]
     # base condition: binds every rule variable on every true path
     if nv == 1:
         base = leaf(draw, ctx, [0])
@@ -91,13 +103,13 @@ def _case(draw, tier):
         if chance(draw, 1, 3):
             base = ["and", "nary", [base, leaf(draw, ctx, [draw(st.integers(0, 1))])]]
     budget = [7]
-    root = {"cond": base, "ref": None, "alt": None}
+    root = {"cond": base, "ref": None, "alt": None, "extra": False}
     budget[0] -= 1
     if chance(draw, 2, 3):
-        root["ref"] = _tree(draw, ctx, nv, 2, budget)
+        root["ref"] = _tree(draw, ctx, nv, 2, budget, extra)
     if budget[0] > 0 and chance(draw, 2, 3):
-        root["alt"] = _tree(draw, ctx, nv, 2, budget)
-    return {"ents": recs, "doms": doms, "vars": vars_, "tree": root, "dom_kind": "list",
+        root["alt"] = _tree(draw, ctx, nv, 2, budget, extra)
+    return {"ents": recs, "doms": doms, "vars": vars_, "tree": root, "dom_kind": "list", "nv": nv, "extra": extra,
             "alt_first": draw(st.booleans()), "sibling_alts": draw(st.booleans()),
             "quant": draw(st.sampled_from(["an", "infer"])), "split_base": draw(st.booleans())}
 
@@ -190,9 +202,12 @@ def fire(node, env, info):
 # ---- building through the public API -----------------------------------------------------------------
 
 def _emit(node, views, V, case, is_root=False):
-    nv = len(V)
+    nv = case.get("nv", len(V))
     tag = TAGS[node["id"]]
-    Add(views, tag(x=V[0], y=V[1]) if nv == 2 else tag(x=V[0]))
+    if node.get("extra"):
+        Add(views, tag(x=V[0], y=V[case["extra"]]))
+    else:
+        Add(views, tag(x=V[0], y=V[1]) if nv == 2 else tag(x=V[0]))
 
     def do_ref():
         if node["ref"] is not None:
@@ -242,16 +257,42 @@ def check(case) -> Outcome:
     from entity_query_language.cache_data import enable_caching, disable_caching
     objs = build_entities(case["ents"])
     nodes = _number(case["tree"])
-    nv = len(case["vars"])
+    nv = case.get("nv", len(case["vars"]))
+    extra = case.get("extra")
+    uses_extra = extra is not None and any(n.get("extra") for n in nodes)
     doms = var_domains(case, objs)
+    if not uses_extra:
+        doms = doms[:nv]
     expected = Counter()
     tags_fired = set()
-    for combo in itertools.product(*doms):
+    dom_extra = doms[extra] if uses_extra else []
+
+    def fire_rows(node, env):
+        """Ripple-down selection; a branch that joins the extra variable applies when SOME value of it matches, and then
+        concludes (or is refined) once per matching value."""
+        if node is None:
+            return []
+        if node.get("extra") and extra not in env:
+            exts = [{**env, extra: w} for w in dom_extra if A.eval_cond(node["cond"], {**env, extra: w})]
+        else:
+            exts = [env] if A.eval_cond(node["cond"], env) else []
+        if not exts:
+            return fire_rows(node["alt"], env)
+        out = []
+        for e in exts:
+            r = fire_rows(node["ref"], e)
+            out += r if r else [(node["id"], e)]
+        return out
+
+    for combo in itertools.product(*doms[:nv]):
         env = dict(enumerate(combo))
-        t = fire(case["tree"], env, None)
-        if t is not None:
-            expected[(f"Tag{t}",) + ident(tuple(combo) if nv == 2 else (combo[0], None))] += 1
+        for t, e in fire_rows(case["tree"], env):
+            y = e[extra] if nodes[t].get("extra") else (combo[1] if nv == 2 else None)
+            expected[(f"Tag{t}",) + ident((combo[0], y))] += 1
             tags_fired.add(t)
+    if uses_extra:
+        # how often an identical conclusion is repeated for values of a variable it does not use is not asserted
+        expected = Counter(set(expected))
     nontrivial = len(tags_fired) >= 2 and any(t != 0 for t in tags_fired)
     depth_feats = []
     root = case["tree"]
@@ -268,6 +309,8 @@ def check(case) -> Outcome:
             feats.append("ref_under_alt")
         if root["alt"]["alt"] is not None:
             feats.append("alt_chain")
+    if uses_extra:
+        feats.append("branch_joins_extra_variable")
     classes = list(feats) + [f"nodes{min(len(nodes), 7)}", f"vars{nv}", case["quant"],
                              "alt_first" if case["alt_first"] else "ref_first",
                              "sibling_alts" if case["sibling_alts"] else "nested_alts"]
@@ -291,10 +334,12 @@ def check(case) -> Outcome:
                 return fail("not_an_instance", f"caching={caching}: result {o!r} is not a conclusion instance",
                             nontrivial=nontrivial, classes=classes, features=feats)
             got[(type(o).__name__,) + ident((o.x, o.y))] += 1
+        if uses_extra:
+            got = Counter(set(got))
         if got != expected:
-            missing, extra = expected - got, got - expected
-            kind = "missing_conclusions" if missing and not extra else ("extra_conclusions" if extra and not missing
-                                                                        else "wrong_conclusions")
+            missing, extra_ = expected - got, got - expected
+            kind = "missing_conclusions" if missing and not extra_ else ("extra_conclusions" if extra_ and not missing
+                                                                         else "wrong_conclusions")
             def show(cnt):
                 return sorted(f"{k}x{v}" for k, v in Counter(x[0] for x in cnt.elements()).items())
             return fail(kind, f"caching={caching}: expected tags {show(expected)} got {show(got)}; results {res}; "
@@ -311,6 +356,8 @@ def _r_tree(n):
     if n is None:
         return None
     d = {"if": A.r_cond(n["cond"])}
+    if n.get("extra"):
+        d["concludes_over"] = "extra variable"
     if n["ref"] is not None:
         d["refinement"] = _r_tree(n["ref"])
     if n["alt"] is not None:
